@@ -161,6 +161,7 @@ PROPS['C17']={
  'obligations':[{'name':w,'module':'harness.wire','cls':'RoundTrip','quick':{'what':w,'prop':'C17','nbytes':1,'rate':WIRE_RATE.get(w,10)},'thorough':{'what':w,'prop':'C17','nbytes':2,'rate':WIRE_RATE.get(w,10)},'validate':{'quick':6,'thorough':24}} for w in WIRE_TYPES_Q]}
 PROPS['C17']['obligations']+=[{'name':'adversarial_'+w,'module':'harness.C14','cls':'DecodeAdversarial','quick':{'what':w,'nbytes':1,'prop':'C17'},'thorough':{'what':w,'nbytes':2,'prop':'C17'},'validate':{'quick':6,'thorough':24},
    **({'tier_only':'thorough'} if w in ('layout','statement_naive','metablock_layout','statement_slsa1','predicate_slsa2') else {})} for w in ADV_TYPES]
+PROPS['C17']['obligations']+=[{'name':'interchange_entry_points','module':'harness.wire','cls':'EntryPoints','quick':{},'thorough':{},'validate':{'quick':8,'thorough':8}}]
 PROPS['C17']['bounds_statement']+='  Also documents that are NOT the output of the serialiser: every single-node mutation of a valid document of each type (see C14 decode obligations) must be accepted or rejected alike on all four channels and decode to equal values.'
 PROPS['C16']={
  'bounds_statement':'same pipeline as C17, asserting serialise -> parse = identity (value equality through the crate\'s own PartialEq-equivalent structure) for every wire type incl. every rule form with keyword-like operands (IN, WITH, FROM, MATCH, trailing-slash prefixes), optional fields present/absent, empty collections, key table self-consistency; byte-identical re-serialisation follows from value equality because serialisation is a function of the value.',
@@ -184,7 +185,7 @@ PROPS['C18']={
                             'ring::digest modelled as an injective function of exactly the bytes fed (concrete inputs use the real SHA-2)'],
  'obligations':[
    {'name':'apply_left_strip','module':'harness.C18','cls':'LeftStrip','quick':{'plen':3,'nprefix':2},'thorough':{'plen':4,'nprefix':3}},
-   {'name':'record_artifacts','module':'harness.C18','cls':'Record','quick':{'flen':2,'nlinks':3},'thorough':{'flen':2,'nlinks':5},'validate':{'quick':12,'thorough':48}},
+   {'name':'record_artifacts','module':'harness.C18','cls':'Record','quick':{'flen':2,'nlinks':3},'thorough':{'flen':2,'nlinks':6},'validate':{'quick':12,'thorough':48}},
    {'name':'in_toto_run_sequencing','module':'harness.C18','cls':'RunSequencing','quick':{},'thorough':{}},
  ]}
 
